@@ -2,6 +2,7 @@ package main
 
 import (
 	"fmt"
+	"regexp"
 	"sort"
 	"strconv"
 	"strings"
@@ -366,6 +367,85 @@ func c04nosecret(seed uint64) c04case {
 	return cs
 }
 
+// c04nccase: the not-contains veto is a byte-exact substring test. IOS-like tree whose levels carry
+// not-contains entries ("root", "tcl", "tcl)", "adm") on a device whose hostname / prompt texts
+// contain those very strings in a DIFFERENT case (ROOT-DC1, Tcl-lab, (config-TCL), ADM): no level
+// may be vetoed by them, every level must still be recognised and reached along the tree path.
+func c04nccase(seed uint64, i int) c04case {
+	r := vlib.NewRng(seed ^ 0xca5e)
+	cs := c04ios(seed, 10)
+	cs.kind = "nccase"
+	cs.line = fmt.Sprintf("c04case nccase %d %d 0", seed, i)
+	host := []string{"ROOT-DC1", "Tcl-lab", "core-ADM_2", "rOoT.tCl"}[i%4]
+	nc := map[string][]string{
+		"exec":           {"root", "adm"},
+		"privilege-exec": {"root", "tcl", "adm"},
+		"configuration":  {"tcl)", "root", "Adm"},
+		"tclsh":          {"root", "TCL)"},
+	}
+	for k := range cs.levels {
+		l := &cs.levels[k]
+		l.notContains = nc[l.name]
+		switch l.name {
+		case "exec":
+			l.prompt = host + ">"
+		case "privilege-exec":
+			l.prompt = host + "#"
+		case "configuration":
+			l.prompt = host + r.Pick([]string{"(config)#", "(config-TCL)#", "(config-Tcl)#"})
+		case "tclsh":
+			l.prompt = host + "(tcl)#"
+		}
+		// entries that would veto the level's own prompt byte-exactly are not a sensible definition
+		var keep []string
+		for _, x := range l.notContains {
+			if !strings.Contains(l.prompt, x) {
+				keep = append(keep, x)
+			}
+		}
+		l.notContains = keep
+	}
+	return cs
+}
+
+// c04caseSwapPrompt: a prompt for the level that its pattern still accepts and that contains one of
+// the level's not-contains entries with the case of its letters flipped (so the byte-exact veto
+// does not apply); "" when none of the constructions works.
+func c04caseSwapPrompt(l c04lvl) string {
+	re, err := regexp.Compile(l.pattern)
+	if err != nil {
+		return ""
+	}
+	word := regexp.MustCompile(`[A-Za-z0-9]+`)
+	for _, x := range l.notContains {
+		sw := c04swapCase(x)
+		if sw == x {
+			continue
+		}
+		loc := word.FindStringIndex(l.prompt)
+		var cands []string
+		if loc != nil {
+			w := l.prompt[loc[0]:loc[1]]
+			cands = append(cands, l.prompt[:loc[0]]+sw+l.prompt[loc[1]:], l.prompt[:loc[0]]+w+"-"+sw+l.prompt[loc[1]:],
+				l.prompt[:loc[0]]+sw+"-"+w+l.prompt[loc[1]:])
+			// also the letters only (entries such as "tcl)" carry punctuation the hostname cannot)
+			if a := word.FindString(sw); a != "" && a != sw {
+				cands = append(cands, l.prompt[:loc[0]]+a+l.prompt[loc[1]:])
+			}
+		}
+		cands = append(cands, sw+l.prompt)
+		for _, c := range cands {
+			if strings.Contains(c, "\n") || c == l.prompt {
+				continue
+			}
+			if re.MatchString(c) && !c04containsAny(c, l.notContains) && strings.Contains(strings.ToLower(c), strings.ToLower(word.FindString(x))) {
+				return c
+			}
+		}
+	}
+	return ""
+}
+
 // ---------------------------------------------------------------------------------------------
 // drivers built through the embedded platform definitions
 
@@ -422,6 +502,31 @@ func c04platform(file string, seed uint64, n int) c04case {
 			notContains: l.NotContains, escPrompt: l.EscalatePrompt})
 	}
 	cs.def = sec.DefaultDesired
+	if n%2 == 1 {
+		// prompts that contain a not-contains entry of their own level in flipped case (ROOT for
+		// "root", TCL) for "tcl)" …), kept only when the match matrix stays what it was
+		before := c04matrix(cs)
+		for k := range cs.levels {
+			if p := c04caseSwapPrompt(cs.levels[k]); p != "" {
+				old := cs.levels[k].prompt
+				cs.levels[k].prompt = p
+				after := c04matrix(cs)
+				same := true
+				for a := range after {
+					for b := range after[a] {
+						if after[a][b] != before[a][b] {
+							same = false
+						}
+					}
+				}
+				if !same {
+					cs.levels[k].prompt = old
+				} else {
+					cs.caseSwapped++
+				}
+			}
+		}
+	}
 	mat := c04matrix(cs)
 	var starts []string
 	for j, l := range cs.levels {
@@ -482,6 +587,9 @@ func c04checkScript(c *ctx, cs c04case, o c04obs, f []string, req string, idx in
 	}
 	if cs.kind == "platform" {
 		res.Count("platform:" + cs.platform)
+		if cs.caseSwapped > 0 {
+			res.Count("platform-case-swapped-prompts:" + cs.platform)
+		}
 	}
 	res.Case(cs.line, len(cs.ops) > 0)
 	if idx%41 == 0 {
